@@ -36,7 +36,7 @@ def WF (s : State) : Op → Prop
   | .enable _ _ o _ => ¬ s.modAcct o
   | .refund _ _ o => ¬ s.modAcct o
   | .call id svc _ cons _ _ _ _ _ _ _ => ¬ s.modAcct cons ∧ id ∉ s.usedIds ∧ s.cfg.modsvc ≠ some svc
-  | .modcreate id _ _ _ cons _ _ _ _ _ _ _ _ _ => ¬ s.modAcct cons ∧ id ∉ s.usedIds
+  | .modcreate id mod _ _ cons _ _ _ _ _ _ _ _ _ => ¬ s.modAcct cons ∧ id ∉ s.usedIds ∧ mod ≠ ""
   | .respond _ p _ _ => ¬ s.modAcct p
   | .pause _ cons => ¬ s.modAcct cons
   | .start _ cons => ¬ s.modAcct cons
